@@ -235,7 +235,12 @@ def match_template(template, program):
                     val = float(res[-1])
 
                 if key in argmatch:
-                    if argmatch[key] != val:
+                    try:
+                        # values solved from different arguments agree only up to rounding
+                        same = bool(np.isclose(argmatch[key], val, rtol=1e-9, atol=1e-12))
+                    except TypeError:
+                        same = argmatch[key] == val
+                    if not same:
                         raise TemplateError("Template parameter {} matches inconsistent values: "
                                             "{} and {}".format(key, val, argmatch[key]))
 
